@@ -207,6 +207,11 @@ func VerifC18_compressedBoundaryAndReencode() {
 		if used {
 			verifC18CheckRecordBatchC(raw, want, pid, epoch, 0, false, comp.out, int16(wantCodec))
 			verifReached(label)
+			if len(raw) == boundary {
+				// witness that the case this harness exists for is generated at all (a
+				// mis-set stub once kept every compressed batch away from the boundary)
+				verifReached("c18-compressed-batch-exactly-at-prefix-boundary")
+			}
 		} else {
 			verifC18CheckRecordBatch(raw, want, pid, epoch, 0, false)
 		}
